@@ -16,6 +16,9 @@ class Prop(WalletProp):
             for _ in range(2 if T else 1):
                 cases.append({"kind": "Gen", "w": self.rand_wspec(rng, testnet), "account": rng.choice([0, 3]), "lo": 0, "hi": 2})
             cases.append({"kind": "Was", "w": self.rand_wspec(rng, testnet)})
+            # wallets re-imported from each PRIVATE prefix of this network, then exported for Wasabi
+            for v in ([0x04358394, 0x044a4e28, 0x045f18bc] if testnet else [0x0488ADE4, 0x049d7878, 0x04b2430c])[: (3 if T else 2)]:
+                cases.append({"kind": "WasX", "w": self.rand_wspec(rng, testnet), "v": v})
             for v in PUBV[testnet]:
                 w = self.rand_wspec(rng, testnet)
                 cases.append({"kind": "Watch", "w": w, "export": [44 + H, (1 if testnet else 0) + H, H], "v": v, "sub": [0, rng.randrange(0, 50)]})
